@@ -7,5 +7,5 @@ Set Extraction KeepSingleton.
 Extraction "model.ml" extraction_prelude
   run run_ev tmap_run proj
   tally_sb tally_sb_why ev_sb ev_sb_why no_overflow all_ops ops_since_clear kind_of
-  run_prof run_prof_trace op_of_req prof_sb prof_sb_why release_sb release_sb_why
+  run_prof run_prof_trace prof_forest pre_reqs_f pre_ans_f nest_sb nest_sb_why op_of_req prof_sb prof_sb_why release_sb release_sb_why
   rec_run record_sb record_sb_why record_guard tallies_empty map_get.
